@@ -119,4 +119,11 @@ inductive SelPred where
   | idAndLabels | unknown
 deriving DecidableEq, Repr, Inhabited
 
+/-- how rruntime.(*Adapter).WatchTrigger applies the destroy-ready filter -/
+inductive FilterRule where
+  | perInput   -- drop only if every input matching the resource is DestroyReady and the resource is not destroy-ready
+  | perGroup   -- one filter per (namespace,type), whatever the other inputs of that group are
+  | unknown
+deriving DecidableEq, Repr, Inhabited
+
 end Cosi.Gen
